@@ -38,6 +38,7 @@ type c14ConcReport struct {
 	Overlapped   int64                    `json:"queries_overlapping_a_mutation"`
 	KindCounts   map[string]int64         `json:"event_counts"`
 	Errors       []string                 `json:"errors"`
+	Interfered   []string                 `json:"interfered_runs"` // runs dropped: a foreign client touched the daemon
 	Violations   []string                 `json:"violations"`
 	Samples      []map[string]interface{} `json:"samples"`
 	RaceObserved map[string]interface{}   `json:"race_observed,omitempty"`
@@ -49,7 +50,32 @@ var (
 )
 
 // c14Translate turns the recorded events into trace lines: peer ids become model producer names.
-func c14Translate(evs []verif.Event, nodeModel map[string]string, w *hlib.NDJSON, rep *c14ConcReport) {
+// It returns false (and writes nothing) when the run was touched by something that is not this harness: a hook event
+// for a connection the harness did not open, or a key outside the harness's names.
+func c14Translate(evs []verif.Event, nodeModel map[string]string, w *hlib.NDJSON, rep *c14ConcReport) bool {
+	own := map[string]bool{"": true}
+	for _, t := range c14Topics {
+		own[t] = true
+	}
+	for _, c := range c14Channels {
+		own[c] = true
+	}
+	known := map[string]bool{}
+	for _, e := range evs {
+		if e.Ev == "CmdEnd" && hlib.KVStr(e, "op") == "Connect" {
+			known[hlib.KVStr(e, "id")] = true
+		}
+	}
+	for _, e := range evs {
+		if id := hlib.KVStr(e, "id"); id != "" && e.Ev != "CmdEnd" && !known[id] {
+			rep.Interfered = append(rep.Interfered, fmt.Sprintf("%s for foreign connection %s", e.Ev, id))
+			return false
+		}
+		if strings.HasPrefix(e.Ev, "DB") && (!own[hlib.KVStr(e, "key")] || !own[hlib.KVStr(e, "sub")]) {
+			rep.Interfered = append(rep.Interfered, fmt.Sprintf("%s for foreign key %s:%s", e.Ev, hlib.KVStr(e, "key"), hlib.KVStr(e, "sub")))
+			return false
+		}
+	}
 	idmap := map[string]string{}
 	who := func(id string) string {
 		if p, ok := idmap[id]; ok {
@@ -102,6 +128,7 @@ func c14Translate(evs []verif.Event, nodeModel map[string]string, w *hlib.NDJSON
 		}
 		w.Put(m)
 	}
+	return true
 }
 
 type c14ConcRun struct {
@@ -404,7 +431,9 @@ func c14Conc(args []string) int {
 		rec.Uninstall()
 		evs := rec.Take()
 		before := report.HookEvents
-		c14Translate(evs, nodeModel, w, report)
+		if !c14Translate(evs, nodeModel, w, report) {
+			continue // not an execution of nsqlookupd under this harness alone
+		}
 		report.Events += len(evs)
 		report.Commands += r.cmds
 		report.Queries += r.queries
@@ -414,12 +443,12 @@ func c14Conc(args []string) int {
 				report.Errors = append(report.Errors, fmt.Sprintf("run %d: %s", run, e))
 			}
 		}
-		if run == 0 && report.HookEvents == before {
+		if report.Runs == 1 && report.HookEvents == before {
 			// the registry hooks are not in this tree: nothing to validate
 			report.HooksMissing = true
 			break
 		}
-		if run == 0 {
+		if report.Runs == 1 {
 			n := 0
 			for _, e := range evs {
 				if n >= 14 {
@@ -597,7 +626,9 @@ func c14Race(args []string) int {
 		r.d.Stop()
 		rec.Uninstall()
 		evs := rec.Take()
-		c14Translate(evs, nodeModel, w, report)
+		if !c14Translate(evs, nodeModel, w, report) {
+			report.Errors = append(report.Errors, "gated run disturbed by a foreign client")
+		}
 		report.Events += len(evs)
 		report.Runs++
 	}
